@@ -1,23 +1,46 @@
-(* Witnesses of the known findings of C02, C03, C04 (never imported by Props/).
+(* Regression records of the repaired findings of C02, C03, C04 - F6, F7, F8, F37 (never imported by Props/; no known
+   finding of the line wrapper is left).
    Each case below is the literal record the Go driver wrote for the fixed witness input (go/cmd/drive/c02.go,
    c02Witnesses): inputs AND what the implementation returned.  corr_ok says the model returns exactly the same lines
    and leaves exactly the same glyph store, so the statements are about the faithful model and about the implementation
-   at once; the oracle of the property is false on that output. *)
+   at once; the oracles of the properties accept that output. *)
 From TV Require Import Check.C02 Check.C03 Check.C04.
 
-Definition f6_case : case := (mkCase [4; 4; 4; 5; 4; 4; 5; 4; 7] [(0, 0, 8, 5120, [(G 0 1 1 640 640 0 0 0); (G 1 1 1 640 640 0 0 0); (G 2 1 1 640 0 0 0 0); (G 3 1 1 640 640 0 0 0); (G 4 1 1 640 640 0 0 0); (G 5 1 1 640 0 0 0 0); (G 6 1 1 640 640 0 0 0); (G 7 1 1 640 640 0 0 0)])] (0, 0, 1, 64, [(G 0 1 1 64 64 0 0 0)]) [(mkCall 0 0 false 0 false 0 [35] false [[(R 1280 0 0 3 0 0 3 0)]; [(R 1280 0 3 3 0 3 3 0)]; [(R 1280 0 6 2 0 6 2 0)]] 0 [] [(0, 2, 0, 0, 0); (0, 5, 0, 0, 0)] false); (mkCall 0 0 false 0 false 0 [1000] false [[(R 5120 0 0 8 0 0 8 0)]] 0 [] [] false); (mkCall 0 0 false 0 false 0 [65] false [[(R 3840 0 0 8 0 0 8 0)]] 0 [] [] false)]).
-Definition f7_case : case := (mkCase [4; 4; 4; 4; 4; 5; 4; 7] [(0, 0, 7, 320, [(G 0 1 1 64 64 0 0 0); (G 1 1 1 64 64 0 0 0); (G 2 1 1 64 64 0 0 0); (G 3 3 1 64 64 0 0 0); (G 6 1 1 64 64 0 0 0)])] (0, 0, 1, 64, [(G 0 1 1 64 64 0 0 0)]) [(mkCall 0 0 false 0 false 0 [2] false [[(R 256 0 0 6 0 0 4 0)]; [(R 64 0 6 1 0 4 1 0)]] 0 [] [] true); (mkCall 0 0 false 1 false 0 [2] false [[(R 320 0 0 7 0 0 5 0)]] 0 [] [] true); (mkCall 0 0 false 2 false 0 [2] false [[(R 256 0 0 6 0 0 4 0)]; [(R 64 0 6 1 0 4 1 0)]] 0 [] [] true)]).
-(* F6: one run "aa bb cc" wrapped at 35, then at 1000 (single-run fast path), then at 65, with the same []Output:
-   the second call returns the whole run with Advance 5120 over glyphs that now sum to 3840 *)
-Theorem advance_is_sum_refuted :
-  case_wf f6_case = true /\ corr_ok f6_case = true /\ oracle_kinds f6_case c02_kind = [10%nat].
+Definition f6_case : case := (mkCase [4; 4; 4; 5; 4; 4; 5; 4; 7] [(0, 0, 8, 5120, [(G 0 1 1 640 640 0 0 0); (G 1 1 1 640 640 0 0 0); (G 2 1 1 640 0 0 0 0); (G 3 1 1 640 640 0 0 0); (G 4 1 1 640 640 0 0 0); (G 5 1 1 640 0 0 0 0); (G 6 1 1 640 640 0 0 0); (G 7 1 1 640 640 0 0 0)])] (0, 0, 1, 64, [(G 0 1 1 64 64 0 0 0)]) [(mkCall 0 0 false 0 false 0 [35] false [[(R 1280 0 0 3 0 0 3 0)]; [(R 1280 0 3 3 0 3 3 0)]; [(R 1280 0 6 2 0 6 2 0)]] 0 [] [(0, 2, 0, 0, 0); (0, 5, 0, 0, 0)] false); (mkCall 0 0 false 0 false 0 [1000] false [[(R 3840 0 0 8 0 0 8 0)]] 0 [] [] false); (mkCall 0 0 false 0 false 0 [65] false [[(R 3840 0 0 8 0 0 8 0)]] 0 [] [] false)]).
+Definition f7_case : case := (mkCase [4; 4; 4; 4; 4; 5; 4; 7] [(0, 0, 7, 320, [(G 0 1 1 64 64 0 0 0); (G 1 1 1 64 64 0 0 0); (G 2 1 1 64 64 0 0 0); (G 3 3 1 64 64 0 0 0); (G 6 1 1 64 64 0 0 0)])] (0, 0, 1, 64, [(G 0 1 1 64 64 0 0 0)]) [(mkCall 0 0 false 0 false 0 [2] false [[(R 128 0 0 2 0 0 2 0)]; [(R 128 0 2 4 0 2 2 0)]; [(R 64 0 6 1 0 4 1 0)]] 0 [] [] true); (mkCall 0 0 false 1 false 0 [2] false [[(R 320 0 0 7 0 0 5 0)]] 0 [] [] true); (mkCall 0 0 false 2 false 0 [2] false [[(R 128 0 0 2 0 0 2 0)]; [(R 128 0 2 4 0 2 2 0)]; [(R 64 0 6 1 0 4 1 0)]] 0 [] [] true)]).
+Definition f37_case : case := (mkCase [4; 4; 1; 4; 4; 7] [(0, 0, 5, 320, [(G 0 2 1 192 192 0 0 0); (G 2 1 1 0 64 0 0 0); (G 3 1 1 64 64 0 0 0); (G 4 1 1 64 64 0 0 0)])] (0, 0, 1, 64, [(G 0 1 1 64 64 0 0 0)]) [(mkCall 0 0 false 0 false 0 [2] false [[(R 192 0 0 2 0 0 1 0)]; [(R 128 0 2 3 0 1 3 0)]] 0 [] [] true); (mkCall 0 0 false 0 false 1 [2] false [] 0 [((Some [(R 192 0 0 2 0 0 1 0)]), 0, 2, false); ((Some [(R 128 0 2 3 0 1 3 0)]), 0, 5, true); (None, 0, 5, true)] [] true); (mkCall 0 2 false 0 false 0 [2] false [[(R 192 0 0 2 0 0 1 0)]; [(R 128 0 2 3 0 1 3 0)]] 0 [] [] true); (mkCall 0 2 true 0 false 1 [2] false [] 0 [((Some [(R 192 0 0 2 0 0 1 0)]), 0, 2, false); ((Some [(R 64 0 2 2 0 1 2 0); (R 64 0 4 1 1 0 1 1)]), 1, 4, true); (None, 0, 4, true)] [] true); (mkCall 0 0 false 1 false 0 [2] false [[(R 192 0 0 2 0 0 1 0)]; [(R 128 0 2 3 0 1 3 0)]] 0 [] [] true); (mkCall 0 0 false 1 false 1 [2] false [] 0 [((Some [(R 192 0 0 2 0 0 1 0)]), 0, 2, false); ((Some [(R 128 0 2 3 0 1 3 0)]), 0, 5, true); (None, 0, 5, true)] [] true); (mkCall 0 2 false 1 false 0 [2] false [[(R 192 0 0 2 0 0 1 0)]; [(R 128 0 2 3 0 1 3 0)]] 0 [] [] true); (mkCall 0 2 true 1 false 1 [2] false [] 0 [((Some [(R 192 0 0 2 0 0 1 0)]), 0, 2, false); ((Some [(R 64 0 2 3 1 0 1 0)]), 3, 2, true); (None, 0, 2, true)] [] true); (mkCall 0 0 false 2 false 0 [2] false [[(R 192 0 0 2 0 0 1 0)]; [(R 128 0 2 3 0 1 3 0)]] 0 [] [] true); (mkCall 0 0 false 2 false 1 [2] false [] 0 [((Some [(R 192 0 0 2 0 0 1 0)]), 0, 2, false); ((Some [(R 128 0 2 3 0 1 3 0)]), 0, 5, true); (None, 0, 5, true)] [] true); (mkCall 0 2 false 2 false 0 [2] false [[(R 192 0 0 2 0 0 1 0)]; [(R 128 0 2 3 0 1 3 0)]] 0 [] [] true); (mkCall 0 2 true 2 false 1 [2] false [] 0 [((Some [(R 192 0 0 2 0 0 1 0)]), 0, 2, false); ((Some [(R 64 0 2 2 0 1 2 0); (R 64 0 4 1 1 0 1 1)]), 1, 4, true); (None, 0, 4, true)] [] true)]).
+(* F6 (wrapping edits glyphs through slices that alias the caller's input runs; a whole input run placed on a line
+   afterwards kept its stale Advance) was repaired in shaping/wrapping.go (fix: a run placed whole has its advance
+   recomputed from its glyphs - fillUntil and the single-run fast path of WrapParagraph); the model follows.
+   Regression: one run "aa bb cc" (10 px per glyph) wrapped at 35, then at 1000 (single-run fast path), then at 65, with the
+   same []Output: the first call zeroes the advances of the two trailing spaces; the second call now returns the whole run
+   with Advance 3840 = the sum of its glyphs (before the repair: 5120, the Advance on entry); the record below is what the
+   repaired implementation returned, the model agrees and the C02 oracle (advance = sum included) accepts every call. *)
+Theorem f6_repaired :
+  case_wf f6_case = true /\ corr_ok f6_case = true /\ oracle_kinds f6_case c02_kind = [].
 Proof. vm_compute. repeat split. Qed.
 
-(* F7: runes a b c d SP e f, clusters a, b, c, "d SP e", f, width 2, WhenNecessary and Always: the first line holds the
-   four clusters a b c "d e" (4 px) although a break after b is permitted and fits; check_width_truncation is false *)
-Theorem greedy_refuted :
-  case_wf f7_case = true /\ corr_ok f7_case = true /\ oracle_kinds f7_case c04_kind = [10%nat; 10%nat].
+(* F7 (the grapheme fallback skipped every grapheme option <= previousWordBreak, and previousWordBreak advanced over UAX #14
+   candidates rejected as intra-cluster) was repaired in shaping/wrapping.go (fix: a UAX #14 break option rejected by the
+   shaped text is discarded, previousWordBreak no longer advances over it); the model follows (discard_word).
+   Regression: runes a b c d SP e f, clusters a, b, c, "d SP e", f, width 2: under WhenNecessary and Always the lines are now
+   "a b", "c d SP e" (the cluster is a single unit), "f" (before the repair the first line held the four clusters
+   a b c "d SP e"); the record below is what the repaired implementation returned, the model agrees and the C04 oracle
+   (width and greedy clauses) accepts every call. *)
+Theorem f7_repaired :
+  case_wf f7_case = true /\ corr_ok f7_case = true /\ oracle_kinds f7_case c04_kind = [].
 Proof. vm_compute. repeat split. Qed.
 
 (* F8 (truncated line = whole-run prefix) was repaired in shaping/wrapping.go (fix: a truncated line that cannot take its
    first break candidate holds no unmeasured runs); its witness stays in the driver as a regression input. *)
+
+(* F37 (a UAX #14 opportunity that is not a grapheme boundary does not fit and no grapheme boundary before it is usable:
+   WrapNextLine returned a nil line with done = false, dropped the option and split the following word) was repaired in
+   shaping/wrapping.go (fix: the grapheme fallback uses the UAX #14 option when it finds no grapheme boundary); the model
+   follows.  Regression: runes a SP U+0301 b b, clusters "a SP" (3 px), U+0301, b, b, width 2, every policy, WrapParagraph and
+   WrapNextLine, with and without TruncateAfterLines = 2: the record below is what the repaired implementation returned
+   ("a SP" then "U+0301 b b"); the model agrees and the oracles of C03 and C04 accept every call. *)
+Theorem f37_repaired :
+  case_wf f37_case = true /\ corr_ok f37_case = true
+  /\ oracle_kinds f37_case c03_kind = [] /\ oracle_kinds f37_case c04_kind = [].
+Proof. vm_compute. repeat split. Qed.
